@@ -47,6 +47,8 @@ func init() {
 				New: "		if mavenutil.CompareVersions(req.VersionKey, v, newReq) < 0 {", Rule: "D3-right-base", Site: "suggestMavenVersion"},
 			{Name: "suggest-level-of-other-name", File: "guidedremediation/internal/suggest/maven.go",
 				Old: "suggestMavenVersion(ctx, opts.ResolveClient, req, opts.UpgradeConfig.Get(req.Name))", New: "suggestMavenVersion(ctx, opts.ResolveClient, req, opts.UpgradeConfig.Get(req.Version))", Rule: "D2-right-level", Site: "Suggest"},
+			{Name: "relax-skips-locked-requirement", File: "guidedremediation/internal/strategy/relax/relax.go", Old: "			if opts.UpgradeConfig.Get(req.VersionKey.Name) == upgrade.None {\n				return nil, common.ErrPatchImpossible\n			}\n", New: "			if opts.UpgradeConfig.Get(req.VersionKey.Name) == upgrade.None {\n				continue\n			}\n", Rule: "D5-progress", Site: "relax"},
+			{Name: "override-reresolves-without-patch", File: "guidedremediation/internal/strategy/override/override.go", Old: "		if !didPatch {\n			break\n		}\n", New: "		_ = didPatch\n", Rule: "D5-progress", Site: "override"},
 		},
 		Neutral: c11Neutral,
 	})
@@ -250,9 +252,11 @@ func runC11(p *Prog, r *Report) {
 	r.Rule("D2-right-level", "the level is Config.Get(UpgradeConfig, name of the package being changed)")
 	r.Rule("D3-right-base", "the base of the difference is the version the requirement resolves to today; candidates lie above it")
 	r.Rule("D4-plumbing", "what is patched/reported is what the level-checked scan returned")
+	r.Rule("D5-progress", "every round of a strategy's fix-point loop changes the manifest or leaves the loop")
 	c11Override(p, r)
 	c11Relax(p, r)
 	c11Suggest(p, r)
+	c11Progress(p, r)
 	n := 0
 	for _, a := range [][2]string{{"guidedremediation/internal/strategy/override", "patchVulns"}, {"guidedremediation/internal/strategy/relax/relaxer", "NpmRelaxer.Relax"}, {"guidedremediation/internal/suggest", "suggestMavenVersion"}} {
 		if fn := p.Func(a[0], a[1]); fn != nil {
@@ -904,4 +908,124 @@ func c11Suggest(p *Prog, r *Report) {
 		}
 		r.Check(okN, "D4-plumbing", ssite+":none-skipped", p.Pos(ci.Pos()), "requirements at level None are skipped", "MavenSuggester.Suggest considers a package configured as not upgradable")
 	}
+}
+
+
+// c11Progress: a round of the override / relax fix-point loop that patches nothing re-resolves the
+// same manifest, finds the same vulnerabilities and repeats forever. Necessary condition of
+// termination, decided path-sensitively over boolean flags: from the start of a round, the next
+// round is reachable only through a Manifest.PatchRequirement call.
+func c11Progress(p *Prog, r *Report) {
+	isPatch := func(in ssa.Instruction) bool {
+		c, ok := in.(*ssa.Call)
+		return ok && c.Call.IsInvoke() && c.Call.Method.Name() == "PatchRequirement"
+	}
+	for _, x := range []struct{ rel, name string }{
+		{"guidedremediation/internal/strategy/override", "patchVulns"},
+		{"guidedremediation/internal/strategy/relax", "patchVulns"},
+	} {
+		fn := p.Func(x.rel, x.name)
+		site := x.rel[strings.LastIndex(x.rel, "/")+1:] + ".patchVulns"
+		if fn == nil {
+			r.Undecided("D5-progress", "anchor:"+site, "-", "not found")
+			continue
+		}
+		// the fix-point loop: the outermost loop that contains the re-resolution (call of resolution.Resolve)
+		var resolveBlk *ssa.BasicBlock
+		forEachInstr(fn, func(b *ssa.BasicBlock, _ int, in ssa.Instruction) {
+			if isCallTo(in, fp("guidedremediation/internal/resolution"), "", "Resolve") {
+				resolveBlk = b
+			}
+		})
+		if resolveBlk == nil {
+			r.Fail("D5-progress", site+":loop", p.Pos(fn.Pos()), "no re-resolution inside a loop found")
+			continue
+		}
+		var hdr *ssa.BasicBlock
+		for h := loopHeaderOf(resolveBlk); h != nil; {
+			hdr = h
+			// outer loop header, if any
+			var outer *ssa.BasicBlock
+			for _, b := range fn.Blocks {
+				if b != h && isLoopHeader(b) && naturalLoop(b)[h] {
+					if outer == nil || naturalLoop(outer)[b] {
+						outer = b
+					}
+				}
+			}
+			h = outer
+		}
+		if hdr == nil || len(hdr.Instrs) == 0 {
+			r.Fail("D5-progress", site+":loop", p.Pos(fn.Pos()), "the re-resolution is not inside a loop")
+			continue
+		}
+		// start points: the loop head; if an inner loop ranges over the very slice whose non-emptiness
+		// is the fix-point loop's condition, its first iteration is certain, so start inside its body
+		starts := []Point{{hdr, 0}}
+		goalHdr := hdr
+		if ifi := blockIf(hdr); ifi != nil {
+			if sl := lenOperand(ifi.Cond); sl != nil {
+				for _, b := range fn.Blocks {
+					if b == hdr || !isLoopHeader(b) || !naturalLoop(hdr)[b] {
+						continue
+					}
+					if rangesOver(b, sl) {
+						starts = []Point{{b.Succs[0], -1}}
+					}
+				}
+			}
+		}
+		var witness []string
+		for _, st := range starts {
+			w := findPathPS(st, func(in ssa.Instruction) bool { return in == goalHdr.Instrs[0] }, isPatch, nil)
+			if w != nil {
+				witness = w
+			}
+		}
+		r.Check(witness == nil, "D5-progress", site+":round-patches-or-leaves", p.Pos(hdr.Instrs[0].Pos()), "the next round is reachable only through PatchRequirement", "a round of the fix-point loop can end without patching any requirement and without leaving the loop (witness "+strings.Join(witness, "→")+"): the same manifest is resolved again with the same result, so the strategy never terminates")
+	}
+}
+
+func isLoopHeader(b *ssa.BasicBlock) bool {
+	for _, pr := range b.Preds {
+		if b.Dominates(pr) {
+			return true
+		}
+	}
+	return false
+}
+
+// lenOperand: for a condition len(x) > 0 (any normal form) returns x.
+func lenOperand(cond ssa.Value) ssa.Value {
+	inner, _ := stripNot(cond)
+	bo, ok := inner.(*ssa.BinOp)
+	if !ok {
+		return nil
+	}
+	for _, side := range []ssa.Value{bo.X, bo.Y} {
+		if c, ok := side.(*ssa.Call); ok {
+			if b, ok := c.Call.Value.(*ssa.Builtin); ok && b.Name() == "len" {
+				return c.Call.Args[0]
+			}
+		}
+	}
+	return nil
+}
+
+// rangesOver: loop header b is a range-by-index loop over slice value sl.
+func rangesOver(b *ssa.BasicBlock, sl ssa.Value) bool {
+	ifi := blockIf(b)
+	if ifi == nil {
+		return false
+	}
+	bo, ok := ifi.Cond.(*ssa.BinOp)
+	if !ok || bo.Op != token.LSS {
+		return false
+	}
+	c, ok := bo.Y.(*ssa.Call)
+	if !ok {
+		return false
+	}
+	bi, ok := c.Call.Value.(*ssa.Builtin)
+	return ok && bi.Name() == "len" && c.Call.Args[0] == sl
 }
